@@ -384,6 +384,48 @@ def rule_equal(ctx):
                 break
 
 
+def rule_ident_compare(ctx):
+    """C02.f: in code that runs before the folding stage, identifier text is compared only through
+    checks.equal (or after explicit case normalisation on both sides)."""
+    prog = ctx.prog
+    n = 0
+    for mname in SCAN_MODULES:
+        if mname in POST_FOLD_MODULES or mname not in prog.modules:
+            continue
+        m = prog.modules[mname]
+        for qual, fn in m.functions.items():
+            if mname == "checks" and qual == "equal":
+                continue
+            facts = FnFacts(mname, fn)
+            for c in ast.walk(fn):
+                if not (isinstance(c, ast.Compare) and len(c.ops) == 1 and isinstance(c.ops[0], (ast.Eq, ast.NotEq, ast.In, ast.NotIn))):
+                    continue
+                l, r = c.left, c.comparators[0]
+                if _constlike(l) or _constlike(r):
+                    continue
+                sl, sr = facts.provenance(l), facts.provenance(r)
+                ident_l = sl[0] == "raw" and "identifier" in sl[1]
+                ident_r = sr[0] == "raw" and "identifier" in sr[1]
+                if not (ident_l or ident_r) or sl[0] == "nottext" or sr[0] == "nottext":
+                    continue
+                n += 1
+                ok = False
+                ctx.ob("C02.f", f"{mname}.{qual}: `{norm(c)[:70]}` compares identifier text through checks.equal", ok, m.loc(c))
+                ctx.violation("C02.f", mname, qual, c, m.loc(c),
+                              f"`{norm(c)}` compares the raw text of identifiers in code that runs before identifiers are folded: "
+                              f"`src` and `SRC` (the same unquoted identifier) compare unequal; use checks.equal, which folds iff unquoted")
+    ctx.inventory["raw identifier-to-identifier comparisons before folding"] = n
+    # positive control: the MERGE source-column test goes through checks.equal
+    mm = prog.modules.get("transforms_merge")
+    uses = [c for c in ast.walk(mm.tree) if isinstance(c, ast.Call) and (prog.dotted(mm, c.func) or "").endswith("checks.equal")] if mm else []
+    ctx.ob("C02.f", "MERGE matches source columns with checks.equal", bool(uses), "fakesnow/transforms_merge.py")
+    if mm and not uses:
+        fn = mm.functions.get("_create_merge_candidates")
+        ctx.violation("C02.f", "transforms_merge", "_create_merge_candidates", "source column test without checks.equal", mm.loc(fn) if fn else mm.path,
+                      "the MERGE explode step no longer uses checks.equal to decide which ON-clause columns belong to the source table: "
+                      "a source spelled with different letter case in USING and ON is not recognised")
+
+
 def rule_session_names(ctx):
     """C02.e: session names and status messages come from folded names."""
     prog = ctx.prog
@@ -436,5 +478,6 @@ RULES = [
     ("C02.b", rule_fold_closure, ("quick", "thorough")),
     ("C02.c", rule_keyword_compare, ("quick", "thorough")),
     ("C02.d", rule_equal, ("quick", "thorough")),
+    ("C02.f", rule_ident_compare, ("quick", "thorough")),
     ("C02.e", rule_session_names, ("quick", "thorough")),
 ]
